@@ -96,7 +96,7 @@ theorem reNumeral_eq (s : Bytes) : reNumeral s = Spec.Xsd.unsignedNumeral s := b
         simp only [h2]
         split
         · next heq => simp at heq; exact absurd heq.1 hdot
-        · simp [hdot]
+        · simp
       · cases hsp : Spec.Xsd.spanDigits (c :: r) with
         | mk i rest =>
           rw [hsp] at hi
